@@ -607,7 +607,7 @@ def gen_unit(unit: dict):
                     for a in NAN_TO_NUM_ARGS:
                         yield {"op": "nan_to_num_", "ops": [r], "args": a}
                     di7 = DEFAULTS7.index(dflt) if dflt == dflt else 6
-                    for s in (SCALARS if (th or pi % 8 == 0) else [SCALARS[(pi + di7) % 5]]):
+                    for s in (SCALARS if (pi % (2 if th else 8) == 0) else [SCALARS[(pi + di7) % 5]]):
                         for name in ("lt", "le", "gt", "ge", "eq", "add", "mul", "sub", "div"):
                             yield {"op": name + "_scalar", "ops": [r], "args": [enc(s)]}
                         for name in ("clamp_min", "clamp_max", "__imul__scalar", "__itruediv__scalar"):
@@ -635,10 +635,10 @@ def gen_unit(unit: dict):
                 yield {"op": "to", "ops": [r], "args": ["int64"]}
             else:  # structural
                 nd = len(shape)
-                dfl = DEFAULTS7 if (th or pi % 4 == 0) else [DEFAULTS7[pi % 7], DEFAULTS7[(pi + 3) % 7]]
+                dfl = DEFAULTS7 if pi % 4 == 0 else [DEFAULTS7[pi % 7], DEFAULTS7[(pi + 3) % 7]] + ([DEFAULTS7[(pi + 5) % 7]] if th else [])
                 for di, dflt in enumerate(dfl):
                     r = fill_data(p, rng, dtype=fdt, default=dflt)
-                    full = di == 0 or th
+                    full = di == 0 or (th and pi % 4 == 0)
                     one = lambda name, args=[]: {"op": name, "ops": [r], "args": args}
                     for name in ("T", "flatten", "clone", "freshen", "detach", "to_dense", "tolist", "__len__" if nd else "T"):
                         yield one(name)
@@ -717,6 +717,7 @@ def gen_unit(unit: dict):
         ident = {"add": 0.0, "mul": 1.0, "sub": 0.0, "div": 1.0, "logaddexp": -inf, "maximum": -inf}
         others = [0.0, 1.0, -inf, inf, 2.5, nan]
         stride = unit.get("stride", 1)
+        if th: stride = max(stride, (len(pa) * len(pb)) // 1500)      # thorough: <= ~1500 pattern pairs per shape pair
         n = 0
         for i, j in itertools.product(range(len(pa)), range(len(pb))):
             n += 1
@@ -757,7 +758,8 @@ def gen_unit(unit: dict):
         fu = [fill_data(p, rng, dtype="float64") for p in pu]
         others = [0.0, 1.0, -inf, inf, 2.5, nan]
         for i, j in itertools.product(range(len(pt_)), range(len(pc))):
-            ks = sorted({(i + j) % len(pu), (3 * i + 5 * j + 1) % len(pu), 0}) if not th else range(len(pu))
+            ks = sorted({(i + j) % len(pu), (3 * i + 5 * j + 1) % len(pu), 0} | ({(7 * i + j + 2) % len(pu), (i + 11 * j + 3) % len(pu), len(pu) - 1} if th else set()))
+            if th and (i * 5 + j) % max(1, (len(pt_) * len(pc)) // 3000): continue
             for k in ks:
                 if not (G.compatible(pt_[i], pc[j], True) and G.compatible(pc[j], pu[k], True) and G.compatible(pt_[i], pu[k], True)):
                     continue                                                        # ill-typed triple
@@ -773,6 +775,7 @@ def gen_unit(unit: dict):
         f = [fill_data(p, rng, dtype="float64", default=DEFAULTS7[i % 7]) for i, p in enumerate(pats)]
         nd = len(shape)
         for i, j in itertools.product(range(len(pats)), repeat=2):
+            if th and (i * 3 + j) % max(1, (len(pats) ** 2) // 6000): continue
             dflt = f[i]["default"]
             if dec(dflt) != dec(dflt): dflt = 2.5      # stack requires equal defaults: NaN is not meaningful
             if G.compatible(pats[i], pats[j]):
@@ -800,13 +803,14 @@ def gen_unit(unit: dict):
         fb = [fill_data(p, rng, dtype=("float32" if i % 4 == 3 else "float64"), default=DEFAULTS7[(i + 2) % 7])
               for i, p in enumerate(pb)]
         for i, j in itertools.product(range(len(pa)), range(len(pb))):
+            if th and (i * 3 + j) % max(1, (len(pa) * len(pb)) // 3000): continue
             yield {"op": "copy_", "ops": [fa[i], fb[j]], "args": []}
             if sa != sb and len(sa) <= len(sb) and all(a in (1, b) for a, b in zip(reversed(sa), reversed(sb))):
                 yield {"op": "expand_as", "ops": [fa[i], fb[j]], "args": []}
     elif kind == "prog":
         shape = tuple(unit["shape"])
         rng = _rng(seed, f"prog:{shape}:{unit.get('part', 0)}")
-        pats = patterns_for_shape(shape, tier)
+        pats = patterns_for_shape(shape, unit.get("ptier", tier))     # programs always run on the quick pattern set
         nd = len(shape)
         steps = [["abs", []], ["exp", []], ["neg_", []], ["relu_", []], ["abs_", []], ["T", []], ["flatten", []],
                  ["unsqueeze", [0]], ["unsqueeze", [-1]], ["permute", [list(reversed(range(nd)))]],
@@ -831,7 +835,7 @@ def gen_unit(unit: dict):
                 progs = itertools.product(steps, repeat=2)
             else:
                 allp = list(itertools.product(steps, repeat=3))
-                progs = [allp[k] for k in range((pi * 7) % 11, len(allp), 11)]
+                progs = [allp[k] for k in range((pi * 7) % 31, len(allp), 31)]
             for pr in progs:
                 if len(steps) and pr[0][0] in ("lt_scalar", "eq_self") and pr[1][0] not in (
                         "T", "flatten", "unsqueeze", "permute", "__getitem__", "clone", "dim_to_dense", "reshape", "expand"):
@@ -932,13 +936,13 @@ def make_units(ctx: Ctx) -> List[dict]:
             U.append({"kind": "copy", "shape": list(a), "shape2": list(b)})
     for s in ([(), (2,), (3,), (4,), (2, 2), (1, 2), (2, 1), (2, 3), (6,), (1, 2, 2), (2, 1, 2), (0,), (0, 2)]
               if not th else _shapes(tier, 6)):
-        U.append({"kind": "prog", "shape": list(s)})
+        U.append({"kind": "prog", "shape": list(s), "ptier": "quick"})
     V = []
     for u in U:
         n = max(len(patterns_for_shape(tuple(u["shape"]), tier)), len(patterns_for_shape(tuple(u.get("shape2", u["shape"])), tier)))
         parts = 1
-        if u["kind"] in ("unary", "struct", "prog") and n > 12: parts = 3
-        if u["kind"] == "binary" and n > 20 and u.get("stride", 1) == 1: parts = 6
+        if u["kind"] in ("unary", "struct", "prog") and n > 12: parts = 3 if not th else 8
+        if u["kind"] == "binary" and n > 20 and u.get("stride", 1) == 1: parts = 6 if not th else 12
         for part in range(parts):
             v = dict(u); v["parts"] = parts; v["part"] = part; V.append(v)
     for u in V:
